@@ -18,4 +18,11 @@ def Int128_Mod (i n : I128) : I128 :=
   | .ok r => r
   | .panic => ⟨0#64, 0#64⟩
 
+/-- `Int128.DivMod`: the model's `I128.divMod`, total form ((0, 0) for a zero divisor, where Go panics); its components
+    are the two total forms above (`GenTie128.divMod_fst`, `divMod_snd`, from `C01.idiv_eq_fst_divMod`) -/
+def Int128_DivMod (i n : I128) : I128 × I128 :=
+  match I128.divMod i n with
+  | .ok p => p
+  | .panic => (⟨0#64, 0#64⟩, ⟨0#64, 0#64⟩)
+
 end GenNum
